@@ -38,6 +38,40 @@ func c05(c *Ctx) {
 	// shared: the collector holds the write lock for the whole pass (C04.R2) — it cannot delete the
 	// record of an ADD acknowledged meanwhile
 	c04R2(c)
+	// shared: what a restart restores is not thrown away again — the start-up trim (and every other
+	// Dispose) touches unowned addresses only (C06.R3, with C01.R10 for "after the owners were restored")
+	c06R3(c)
+	c01R10(c)
+	c05R10(c)
+}
+
+// R10: a failed write of the record store is not acknowledged. With the error of Storage.Put /
+// Storage.Delete non-nil, every exit of the daemon function that issued it reports a failure — a
+// DEL whose record could not be removed is not acknowledged (the record would hand the address to
+// its old owner again after a restart).
+func c05R10(c *Ctx) {
+	p := c.P
+	c.Rule("C05.R10", "a failed write of the record store makes the operation fail: with the error of Storage.Put / Storage.Delete non-nil every exit of the daemon function that issued it returns a non-nil error (or the call's result is returned as it is)")
+	put, del := p.Method(storagePkg, "Storage", "Put"), p.Method(storagePkg, "Storage", "Delete")
+	if put == nil || del == nil {
+		c.Unres("C05.R10", "storage.Storage.Put / Delete", "not found")
+		return
+	}
+	n, direct := 0, 0
+	for _, fn := range p.FuncsInPkg(daemonPkg) {
+		cs := p.CallsTo([]*FuncInfo{fn}, put, del)
+		if len(cs) == 0 {
+			continue
+		}
+		for _, s := range cs {
+			if _, isRet := parentStmt(fn, s.Call).(*ast.ReturnStmt); isRet && s.Lit == nil {
+				direct++
+				c.OK("C05.R10", fn.Name+": the result of "+s.Callee.Name()+" is the function's result", p.Pos(s.Call), fn.Key(), "return store."+s.Callee.Name()+"(…)")
+			}
+		}
+		n += stickyErrors(c, "C05.R10", fn, func(f *types.Func) bool { return f == put || f == del }, "record-store write")
+	}
+	c.Floor("C05.R10", "record-store writes in the daemon", 2, n+direct)
 }
 
 // R1: ADD is acknowledged only after the record is on disk.
